@@ -253,9 +253,15 @@ def rowBlocks : List Row → List Line
 def sclText (c : Circuit) : List Line :=
   "UCLA scl 1.0".toList :: [] :: ("NumRows : ".toList ++ showInt c.rows.length) :: [] :: rowBlocks c.rows
 
-/-- `"RowBasedPlacement : " << f << ".nodes " << f << ".nets " << f << ".pl " << f << ".scl" << endl` -/
+/-- `os.path.basename`, and `filename.substr(filename.find_last_of('/') + 1)` of export.cpp -/
+def basename (p : Line) : Line := (p.reverse.takeWhile (· != '/')).reverse
+
+/-- `"RowBasedPlacement : " << base << ".nodes " << base << ".nets " << base << ".pl " << base << ".scl" << endl`
+with `base` the part of the export prefix after its last `/` (after the F18 fix: names relative to the
+directory of the `.aux` file) -/
 def auxText (pre : Line) : List Line :=
-  ["RowBasedPlacement : ".toList ++ (pre ++ (".nodes ".toList ++ (pre ++ (".nets ".toList ++ (pre ++ (".pl ".toList ++ (pre ++ ".scl".toList)))))))]
+  ["RowBasedPlacement : ".toList ++ (basename pre ++ (".nodes ".toList ++ (basename pre ++ (".nets ".toList ++
+    (basename pre ++ (".pl ".toList ++ (basename pre ++ ".scl".toList)))))))]
 
 /-- the four data files -/
 structure TextFiles where
@@ -613,9 +619,6 @@ def dirname (p : Line) : Line :=
   let head := (p.reverse.dropWhile (· != '/')).reverse     -- up to and including the last '/'
   if head.all (· == '/') then head else dropTrailingSlashes head
 
-/-- `os.path.basename` -/
-def basename (p : Line) : Line := (p.reverse.takeWhile (· != '/')).reverse
-
 /-- `os.path.join(a, b)` (POSIX, two arguments) -/
 def pathJoin (a b : Line) : Line :=
   if startsWith "/" b then b
@@ -693,12 +696,19 @@ def exportFS (pre : Line) (c : Circuit) : FS := fun path =>
   else if path = pre ++ ".scl".toList then some (sclText c)
   else none
 
+/-- the directory part of a prefix, reversed (`[]`, or starting with the last `/`), is one that
+`os.path.dirname` + `os.path.join` put back in front of a base name unchanged: empty, the root `/`, or
+ending in a single `/` -/
+def goodDir : Line → Bool
+  | [] => true
+  | [_] => true
+  | _ :: c :: _ => c != '/'
+
 /-- prefixes for which the `.aux` file written by `exportIspdAux` leads the reader back to the four data
-files: not empty, no white space (the `.aux` line is split at white space), and either absolute or without
-any directory part (the names in the `.aux` file are the *whole* prefix, which the reader joins to the
-directory of the `.aux` file once more) -/
+files: no white space in the base name (the `.aux` line is split at white space) and a directory part —
+absolute or relative, or none — without a doubled `/` at its end (the model compares paths as strings) -/
 def goodPrefix (pre : Line) : Bool :=
-  !pre.isEmpty && pre.all (fun c => !isWs c) && (startsWith "/" pre || !pre.contains '/')
+  (basename pre).all (fun c => !isWs c) && goodDir (pre.reverse.dropWhile (· != '/'))
 
 /-! ## `Circuit.write_placement` / `Circuit.load_placement` (Python side) -/
 
